@@ -226,3 +226,54 @@ Proof.
   - rewrite nth_error_app1; [reflexivity|]. rewrite firstn_length. lia.
 Qed.
 End CursorProofs.
+
+(* ---- EQ positioning ---- *)
+Require Import IW.KV.Spec IW.KV.Node_proofs.
+Section CursorEq.
+Variables K V : Type.
+Variable cmp : K -> K -> comparison.
+Variable IDXNUM PIVOT : nat.
+Hypothesis pivot_ok : 1 <= PIVOT < IDXNUM.
+Hypothesis cmp_lt_eq : forall a b c, cmp a b = Lt -> cmp b c = Eq -> cmp a c = Lt.
+Hypothesis cmp_antisym : forall a b, cmp a b = CompOpp (cmp b a).
+Hypothesis cmp_trans : forall a b c, cmp a b = Lt -> cmp b c = Lt -> cmp a c = Lt.
+
+Lemma lower_nodes_in : forall rest (n0 : node K V) k, In (lower_nodes K V cmp n0 rest k) (n0 :: rest).
+Proof.
+  induction rest as [|nx rest IH]; intros n0 k; cbn [lower_nodes]; [left; reflexivity|].
+  destruct (first_le K V cmp (snd nx) k); [right; apply IH|left; reflexivity].
+Qed.
+Lemma lower_of_in (c : chain K V) k n : lower_of K V cmp c k = Some n -> In n c.
+Proof.
+  unfold lower_of. destruct c as [|n0 rest]; [discriminate|].
+  destruct (first_le K V cmp (snd n0) k); [|discriminate]. intros H. inversion H; subst. apply lower_nodes_in.
+Qed.
+
+Lemma in_split_unique (c : chain K V) id r : In (id, r) c -> exists pre rest, c = pre ++ (id, r) :: rest.
+Proof. intros H. apply in_split in H. exact H. Qed.
+
+Theorem cursor_eq_spec (c : chain K V) (cur : cursor) (k : K) :
+  NodeInv K V cmp IDXNUM c -> ids_unique K V c ->
+  match cursor_to_key K V cmp c cur false k with
+  | (CROk, cur') => exists k' v, cursor_read K V c cur' = Some (k', v) /\ cmp k' k = Eq /\ s_get K V cmp (flat K V c) k = Some v
+  | (_, _) => s_get K V cmp (flat K V c) k = None
+  end.
+Proof.
+  intros Hinv Hu.
+  pose proof (get_chain_refines K V cmp IDXNUM PIVOT cmp_lt_eq cmp_trans pivot_ok c k Hinv) as Hget.
+  unfold get_chain in Hget. unfold cursor_to_key.
+  destruct (lower_of K V cmp c k) as [[lid lrecs]|] eqn:El; [|symmetry; exact Hget].
+  destruct (in_split_unique c lid lrecs (lower_of_in c k _ El)) as [pre [rest Hc]].
+  rewrite (load_at K V c pre lid lrecs rest Hc Hu).
+  destruct (found_at K V cmp lrecs k (pos K V cmp lrecs k)) eqn:Ef.
+  - unfold found_at in Ef. destruct (nth_error lrecs (pos K V cmp lrecs k)) as [[k1 v1]|] eqn:En; [|discriminate].
+    destruct (cmp k1 k) eqn:Ec; try discriminate.
+    exists k1, v1. split; [|split; [exact Ec|]].
+    + change {| c_cn := Some {| cc_node := CnNode lid; cc_pnum := length lrecs; cc_p0 := last_id_or K V None pre; cc_n0 := nid_of K V rest |};
+                c_pos := pos K V cmp lrecs k; c_skip := 0%Z; c_pend := c_pend cur |}
+        with (at_node K V pre lid lrecs rest (pos K V cmp lrecs k) (c_pend cur)).
+      apply (read_at K V c pre lid lrecs rest _ _ (k1, v1) Hc Hu En).
+    + rewrite <- Hget. simpl. reflexivity.
+  - symmetry. exact Hget.
+Qed.
+End CursorEq.
